@@ -5,7 +5,7 @@
    the presence of the wrap at every int16 operation. *)
 From Coq Require Import NArith ZArith List Bool.
 From Clemens Require Import Base.Res Base.Word Pos.Types Att.Attacks Pos.Position Eval.Eval.
-From WipBound Require Import EvalZ.
+From Clemens.C15Bound Require Import EvalZ.
 Import ListNotations.
 Open Scope Z_scope.
 
